@@ -91,6 +91,48 @@ func freeVarOnlyLoaded(fv *ssa.FreeVar, depth int) bool {
 	return true
 }
 
+// ReachingStore returns the value most recently stored into the local cell
+// read by `load` when that is decidable without merging: it scans backwards in
+// the load's block and then along the chain of unique predecessors until a
+// store to the same cell is found. Calls in between are ignored only if the
+// cell is not captured by a closure that writes it. Returns nil if undecided.
+func ReachingStore(load ssa.Value) ssa.Value {
+	u, ok := Unwrap(load).(*ssa.UnOp)
+	if !ok || u.Op != token.MUL {
+		return nil
+	}
+	al, ok := u.X.(*ssa.Alloc)
+	if !ok {
+		return nil
+	}
+	// refuse cells written from closures
+	for _, ref := range *al.Referrers() {
+		if mc, ok := ref.(*ssa.MakeClosure); ok {
+			fn := mc.Fn.(*ssa.Function)
+			for i, b := range mc.Bindings {
+				if b == ssa.Value(al) && !freeVarOnlyLoaded(fn.FreeVars[i], 0) {
+					return nil
+				}
+			}
+		}
+	}
+	b := u.Block()
+	idx := InstrIndex(u)
+	for hops := 0; hops < 32; hops++ {
+		for k := idx - 1; k >= 0; k-- {
+			if st, ok := b.Instrs[k].(*ssa.Store); ok && st.Addr == ssa.Value(al) {
+				return st.Val
+			}
+		}
+		if len(b.Preds) != 1 {
+			return nil
+		}
+		b = b.Preds[0]
+		idx = len(b.Instrs)
+	}
+	return nil
+}
+
 // FreeVarBinding returns, for a free variable of an anonymous function, the
 // value bound to it at the (unique) MakeClosure site in the parent.
 func FreeVarBinding(fv *ssa.FreeVar) ssa.Value {
